@@ -56,6 +56,35 @@
 #include <fcppt/variant/match.hpp>
 #include <fcppt/variant/object.hpp>
 #include <fcppt/variant/to_optional.hpp>
+#include <fcppt/container/grid/apply.hpp>
+#include <fcppt/container/grid/dim.hpp>
+#include <fcppt/container/grid/map.hpp>
+#include <fcppt/container/grid/object.hpp>
+#include <fcppt/container/grid/pos.hpp>
+#include <fcppt/container/grid/resize.hpp>
+#include <fcppt/container/tree/map.hpp>
+#include <fcppt/container/tree/object.hpp>
+#include <fcppt/no_init.hpp>
+#include <fcppt/string.hpp>
+#include <fcppt/args_vector.hpp>
+#include <fcppt/options/active_value.hpp>
+#include <fcppt/options/default_value.hpp>
+#include <fcppt/options/flag.hpp>
+#include <fcppt/options/inactive_value.hpp>
+#include <fcppt/options/long_name.hpp>
+#include <fcppt/options/option.hpp>
+#include <fcppt/options/optional_help_text.hpp>
+#include <fcppt/options/optional_short_name.hpp>
+#include <fcppt/options/parse_context.hpp>
+#include <fcppt/options/parse_error.hpp>
+#include <fcppt/options/result_of.hpp>
+#include <fcppt/options/state.hpp>
+#include <fcppt/options/state_with_value.hpp>
+#include <fcppt/parse/basic_char.hpp>
+#include <fcppt/parse/make_convert.hpp>
+#include <fcppt/parse/parse_string.hpp>
+#include <fcppt/parse/operators/repetition.hpp>
+#include <fcppt/parse/operators/sequence.hpp>
 #include <fcppt/optional/alternative.hpp>
 #include <fcppt/optional/apply.hpp>
 #include <fcppt/optional/bind.hpp>
@@ -104,6 +133,8 @@ struct tok_t
   bool orig;
 
   explicit tok_t(int const _id) noexcept : id{_id}, live{true}, orig{false} {}
+  // only for fcppt::extract_from_string (instantiated by options::option::parse, never executed here)
+  explicit tok_t(fcppt::no_init const &) noexcept : id{0}, live{true}, orig{false} {}
 
   tok_t(tok_t const &_o) requires Copyable : id{_o.id}, live{_o.live}, orig{false}
   {
@@ -160,6 +191,17 @@ private:
     live = false;
   }
 };
+
+template <typename Ch, typename Tr, bool C>
+std::basic_ostream<Ch, Tr> &operator<<(std::basic_ostream<Ch, Tr> &_s, tok_t<C> const &_t)
+{
+  return _s << _t.read();
+}
+template <typename Ch, typename Tr, bool C>
+std::basic_istream<Ch, Tr> &operator>>(std::basic_istream<Ch, Tr> &_s, tok_t<C> &_t)
+{
+  return _s >> _t.id;
+}
 
 using Tok = tok_t<true>;
 using MTok = tok_t<false>;
@@ -1703,6 +1745,314 @@ std::string op_record(std::string const &_op, line_t const &L)
   throw bad_op{};
 }
 
+// ---------------------------------------------------------------- grid (2 dimensions, storage order = x fastest)
+
+template <typename T>
+using grid2 = fcppt::container::grid::object<T, 2>;
+
+template <typename T>
+grid2<T> mk_grid(arg_t const &_a, int const _w, int const _h)
+{
+  need(_w >= 0 && _h >= 0 && static_cast<std::size_t>(_w * _h) == _a.ids.size());
+  using dim = typename grid2<T>::dim;
+  using pos = typename grid2<T>::pos;
+  return grid2<T>{
+      dim{static_cast<std::size_t>(_w), static_cast<std::size_t>(_h)},
+      [&](pos const p) { return T{_a.ids.at(p.y() * static_cast<std::size_t>(_w) + p.x())}; }};
+}
+template <typename T>
+void mark(grid2<T> &_g)
+{
+  for (auto &e : _g)
+    mark(e);
+}
+
+template <typename T>
+std::string op_grid(std::string const &_op, line_t const &L)
+{
+  using dim = typename grid2<T>::dim;
+  using pos = typename grid2<T>::pos;
+  if (_op == "gridmap")
+  {
+    need(L.args.size() == 1 && L.par.size() == 2);
+    auto g{mk_grid<T>(L.args[0], L.par[0], L.par[1])};
+    mark(g);
+    g_log.clear();
+    grid2<T> const r{with_cat<true>(L.cat(0), g, [](auto &&x) { return fcppt::container::grid::map(FWD(x), thru{}); })};
+    event_log const log{g_log};
+    return finish("-", slots(r), {slots(g)}, log);
+  }
+  if (_op == "gridapply2")
+  {
+    need(L.args.size() == 2 && L.par.size() == 4);
+    auto g{mk_grid<T>(L.args[0], L.par[0], L.par[1])};
+    mark(g);
+    auto h{mk_grid<T>(L.args[1], L.par[2], L.par[3])};
+    mark(h);
+    g_log.clear();
+    grid2<T> const r{with_cat<true>(
+        L.cat(0),
+        g,
+        [&](auto &&x)
+        { return with_cat<true>(L.cat(1), h, [&](auto &&y) { return fcppt::container::grid::apply(first_of_two{}, FWD(x), FWD(y)); }); })};
+    event_log const log{g_log};
+    return finish("-", slots(r), {slots(g), slots(h)}, log);
+  }
+  if (_op == "gridresize")
+  {
+    need(L.args.size() == 1 && L.par.size() == 4 && L.par[2] >= 0 && L.par[3] >= 0);
+    auto g{mk_grid<T>(L.args[0], L.par[0], L.par[1])};
+    mark(g);
+    std::size_t const nw{static_cast<std::size_t>(L.par[2])};
+    dim const nd{nw, static_cast<std::size_t>(L.par[3])};
+    g_log.clear();
+    grid2<T> const r{with_cat<T::copyable>(
+        L.cat(0),
+        g,
+        [&](auto &&x)
+        {
+          return fcppt::container::grid::resize(
+              FWD(x), nd, [nw](pos const p) { return T{1000 + static_cast<int>(p.y() * nw + p.x())}; });
+        })};
+    event_log const log{g_log};
+    return finish("-", slots(r), {slots(g)}, log);
+  }
+  throw bad_op{};
+}
+
+// ---------------------------------------------------------------- tree (root value + leaf children)
+
+template <typename T>
+using tree = fcppt::container::tree::object<T>;
+
+template <typename T>
+tree<T> mk_tree(arg_t const &_a)
+{
+  need(!_a.ids.empty());
+  tree<T> t{T{_a.ids[0]}};
+  for (std::size_t i = 1; i < _a.ids.size(); ++i)
+    t.push_back(T{_a.ids[i]});
+  return t;
+}
+template <typename T>
+void mark(tree<T> &_t)
+{
+  mark(_t.value());
+  for (auto &c : _t)
+    mark(c);
+}
+template <typename T>
+void tree_add(slots_t &_s, tree<T> const &_t)
+{
+  _s.add(_t.value());
+  for (auto const &c : _t)
+    tree_add(_s, c);
+}
+template <typename T>
+std::string tree_slots(tree<T> const &_t)
+{
+  slots_t s;
+  tree_add(s, _t);
+  return s.str();
+}
+
+template <typename T>
+std::string op_tree(std::string const &_op, line_t const &L)
+{
+  if (_op == "treector")
+  {
+    need(L.args.size() == 1 && L.n(0) == 1 && L.par.empty());
+    T x{L.args[0].ids[0]};
+    mark(x);
+    g_log.clear();
+    tree<T> const r{with_cat<T::copyable>(L.cat(0), x, [](auto &&v) { return tree<T>{FWD(v)}; })};
+    event_log const log{g_log};
+    slots_t sx;
+    sx.add(x);
+    return finish("-", tree_slots(r), {sx.str()}, log);
+  }
+  if (_op == "treepushval" || _op == "treepushtree")
+  {
+    need(L.args.size() == 2 && L.cat(0) == 'i' && L.n(1) == 1 && L.par.empty());
+    auto t{mk_tree<T>(L.args[0])};
+    mark(t);
+    if (_op == "treepushval")
+    {
+      T x{L.args[1].ids[0]};
+      mark(x);
+      g_log.clear();
+      switch (L.cat(1))
+      {
+      case 'r':
+        t.push_back(std::move(x));
+        break;
+      case 'l':
+        if constexpr (T::copyable)
+          t.push_back(x);
+        else
+          throw bad_op{};
+        break;
+      case 'c':
+        if constexpr (T::copyable)
+          t.push_back(std::as_const(x));
+        else
+          throw bad_op{};
+        break;
+      default:
+        throw bad_op{};
+      }
+      event_log const log{g_log};
+      slots_t sx;
+      sx.add(x);
+      return finish("-", "-", {tree_slots(t), sx.str()}, log);
+    }
+    need(L.cat(1) == 'r');
+    tree<T> c{T{L.args[1].ids[0]}};
+    mark(c);
+    g_log.clear();
+    t.push_back(std::move(c));
+    event_log const log{g_log};
+    return finish("-", "-", {tree_slots(t), tree_slots(c)}, log);
+  }
+  if (_op == "treerelease")
+  {
+    need(L.args.size() == 1 && L.cat(0) == 'i' && L.par.size() == 1 && L.par[0] >= 0 && static_cast<std::size_t>(L.par[0]) + 1 < L.n(0));
+    auto t{mk_tree<T>(L.args[0])};
+    mark(t);
+    g_log.clear();
+    tree<T> const r{t.release(std::next(t.begin(), L.par[0]))};
+    event_log const log{g_log};
+    return finish("-", tree_slots(r), {tree_slots(t)}, log);
+  }
+  if (_op == "treemap")
+  {
+    need(L.args.size() == 1 && L.par.empty());
+    auto t{mk_tree<T>(L.args[0])};
+    mark(t);
+    g_log.clear();
+    tree<T> const r{
+        with_cat<true>(L.cat(0), t, [](auto &&x) { return fcppt::container::tree::map<tree<T>>(FWD(x), [](T const &v) { return v.derive(1); }); })};
+    event_log const log{g_log};
+    return finish("-", tree_slots(r), {tree_slots(t)}, log);
+  }
+  throw bad_op{};
+}
+
+// ---------------------------------------------------------------- options: the constructors that take element values
+
+FCPPT_RECORD_MAKE_LABEL(lopt);
+
+// what a parser built from the element type stores is shown by parsing (outside the logged window)
+template <typename P>
+std::string parse_value(P const &_p, fcppt::args_vector _args)
+{
+  using result_type = fcppt::options::result_of<P>;
+  return fcppt::either::match(
+      _p.parse(fcppt::options::state{std::move(_args)}, fcppt::options::parse_context{_p.option_names()}),
+      [](fcppt::options::parse_error const &) { return std::string{"?"}; },
+      [](fcppt::options::state_with_value<result_type> const &_r) { return slot(fcppt::record::get<lopt>(_r.value())); });
+}
+
+template <typename T>
+std::string op_options(std::string const &_op, line_t const &L)
+{
+  namespace fo = fcppt::options;
+  if (_op == "optsflag")
+  {
+    need(L.args.size() == 2 && L.n(0) == 1 && L.n(1) == 1 && L.cat(0) == 'r' && L.cat(1) == 'r' && L.par.empty());
+    fo::active_value<T> a{T{L.args[0].ids[0]}};
+    fo::inactive_value<T> b{T{L.args[1].ids[0]}};
+    mark(a.get());
+    mark(b.get());
+    g_log.clear();
+    std::string res;
+    try
+    {
+      fo::flag<lopt, T> const f{
+          fo::optional_short_name{}, fo::long_name{fcppt::string{"flag"}}, std::move(a), std::move(b), fo::optional_help_text{}};
+      event_log const log{g_log};
+      if constexpr (T::copyable)
+        res = parse_value(f, fcppt::args_vector{fcppt::string{"--flag"}}) + "," + parse_value(f, fcppt::args_vector{});
+      else
+        res = "?";
+      slots_t sa, sb;
+      sa.add(a.get());
+      sb.add(b.get());
+      return finish("-", res, {sa.str(), sb.str()}, log);
+    }
+    catch (fcppt::options::exception const &)
+    {
+      event_log const log{g_log};
+      slots_t sa, sb;
+      sa.add(a.get());
+      sb.add(b.get());
+      return finish("exc:options", "-", {sa.str(), sb.str()}, log);
+    }
+  }
+  if (_op == "optsoption")
+  {
+    need(L.args.size() == 1 && L.n(0) <= 1 && L.cat(0) == 'r' && L.par.empty());
+    using dv = typename fo::option<lopt, T>::optional_default_value;
+    dv d{mk_opt<T>(L.args[0])};
+    mark(d.get());
+    g_log.clear();
+    fo::option<lopt, T> const o{fo::optional_short_name{}, fo::long_name{fcppt::string{"opt"}}, std::move(d), fo::optional_help_text{}};
+    event_log const log{g_log};
+    std::string res{"-"};
+    if constexpr (T::copyable)
+    {
+      if (L.n(0) == 1)
+        res = parse_value(o, fcppt::args_vector{});
+    }
+    else if (L.n(0) == 1)
+      res = "?";
+    return finish("-", res, {opt_slots(d.get())}, log);
+  }
+  throw bad_op{};
+}
+
+// ---------------------------------------------------------------- parse: results built from sub-results
+
+template <typename T>
+std::string op_parse(std::string const &_op, line_t const &L)
+{
+  namespace fp = fcppt::parse;
+  need(L.args.empty() && L.par.size() == 1 && L.par[0] >= 0 && L.par[0] <= 8);
+  std::string const input(static_cast<std::size_t>(L.par[0]), 'x');
+  int next{1000};
+  auto const one{[&next]
+                 {
+                   return fp::make_convert(
+                       fp::basic_char<char>{},
+                       [&next](char &&)
+                       {
+                         return T{next++};
+                       });
+                 }};
+  g_log.clear();
+  if (_op == "parseseq")
+  {
+    auto const p{one() >> one()};
+    auto const r{fp::parse_string(p, std::string{input})};
+    event_log const log{g_log};
+    slots_t sr;
+    if (r.has_success())
+    {
+      sr.add(fcppt::tuple::get<0>(r.get_success_unsafe()));
+      sr.add(fcppt::tuple::get<1>(r.get_success_unsafe()));
+    }
+    return finish(r.has_success() ? "S" : "F", sr.str(), {}, log);
+  }
+  if (_op == "parserep")
+  {
+    auto const p{*one()};
+    auto const r{fp::parse_string(p, std::string{input})};
+    event_log const log{g_log};
+    return finish(r.has_success() ? "S" : "F", r.has_success() ? slots(r.get_success_unsafe()) : "-", {}, log);
+  }
+  throw bad_op{};
+}
+
 // ---------------------------------------------------------------- dispatch
 
 template <typename T>
@@ -1768,6 +2118,14 @@ std::string dispatch(std::string const &_op, line_t const &L)
     return op_array<T>(_op, L);
   if (_op == "recmap" || _op == "recpermute" || _op == "recmuldisj")
     return op_record<T>(_op, L);
+  if (_op == "gridmap" || _op == "gridapply2" || _op == "gridresize")
+    return op_grid<T>(_op, L);
+  if (_op == "treector" || _op == "treepushval" || _op == "treepushtree" || _op == "treerelease" || _op == "treemap")
+    return op_tree<T>(_op, L);
+  if (_op == "optsflag" || _op == "optsoption")
+    return op_options<T>(_op, L);
+  if (_op == "parseseq" || _op == "parserep")
+    return op_parse<T>(_op, L);
   throw bad_op{};
 }
 
